@@ -443,15 +443,22 @@ pub fn random(args: &Args) {
             let Some(out) = w.poll(0, ba, eg && false, &mut t) else { break };
             w.a.dev.tx_budget = None;
             w.drain_recv(0, &mut t);
-            // station C: an oversized echo request for A arriving while A still has fragments of its own to send
-            // (raw-IP runs only: on Ethernet A would have to resolve C first); the reply needs fragmenting as well
-            if cping && !eth && w.a.poll_at(w.now) == 0 {
+            // station C: an oversized echo request for A arriving while A still has fragments of its own to send; the reply
+            // needs fragmenting as well (on Ethernet C introduces itself with an ARP request first, or A could not answer)
+            if cping && w.a.poll_at(w.now) == 0 {
                 cping = false;
                 let did = 950_000 + run as u32;
                 let per = (mtu - 20) & !7;
                 let size = rng.range(mtu as u64, (fragbuf - 28) as u64) as usize;
                 w.proj.sizes.insert(did, (size, 0, 0, true));
                 let fr = craft_ping_frags(0x7000 + run as u16, did, size, per);
+                let fr: Vec<Vec<u8>> = if eth {
+                    let (ma, mc) = ([2, 0, 0, 0, 0, A[3]], [2, 0, 0, 0, 0, C[3]]);
+                    back.push(eth_frame([0xff; 6], mc, 0x0806, &arp_packet(1, mc, C, [0; 6], A)));
+                    fr.iter().map(|h| eth_frame(ma, mc, 0x0800, h)).collect()
+                } else {
+                    fr
+                };
                 let outs: Vec<Value> = fr.iter().map(|x| w.proj.frame(2, x)).collect();
                 t.ev(json!({"ev":"api","ep":2,"now":w.now,"call":"send","kind":"icmp","sock":0,"did":did,"size":size,"total":8+size,"ok":true}));
                 t.ev(json!({"ev":"poll","ep":2,"now":w.now,"rx":[],"out":outs,"pa":-1,"eg":true}));
@@ -459,7 +466,12 @@ pub fn random(args: &Args) {
             }
             for f in out {
                 // frames for station C end there
-                if !eth && f.len() >= 20 && f[16..20] == C {
+                // (told by the IP destination, or for ARP by the hardware destination: an IP frame for B that carries C's
+                //  hardware address still reaches B's device, which is where it shows as a datagram B never delivers)
+                if (!eth && f.len() >= 20 && f[16..20] == C)
+                    || (eth && f.len() >= 34 && f[12] == 8 && f[13] == 0 && f[30..34] == C)
+                    || (eth && f.len() >= 14 && f[12] == 8 && f[13] == 6 && f[..6] == [2, 0, 0, 0, 0, C[3]])
+                {
                     continue;
                 }
                 let is_arp = eth && f.len() >= 14 && f[12] == 8 && f[13] == 6;
